@@ -6,11 +6,16 @@
 pub open spec fn matches_v(r: ApiEndpointVersions, version: Option<&Version>) -> bool {
     match version { None => true, Some(v) => in_range(r, *v) }
 }
+pub type Route = Seq<PathSegment>;
+pub type Pair<C> = (String, ApiEndpoint<C>);
+/// one entry of the listing: the route (edge labels from the root) of the node, the method name, the endpoint
+pub type Listed<C> = (Route, String, ApiEndpoint<C>);
+
 /// the version filter: what the innermost closure of iter_handlers_from_node returns
-pub open spec fn keep_spec<C: ServerContext>(m: String, h: ApiEndpoint<C>, version: Option<&Version>) -> Option<(String, ApiEndpoint<C>)> {
+pub open spec fn keep_spec<C: ServerContext>(m: String, h: ApiEndpoint<C>, version: Option<&Version>) -> Option<Pair<C>> {
     if matches_v(h.versions, version) { Some((m, h)) } else { None }
 }
-pub open spec fn kept<C: ServerContext>(m: String, hs: Seq<ApiEndpoint<C>>, version: Option<&Version>) -> Seq<(String, ApiEndpoint<C>)>
+pub open spec fn kept<C: ServerContext>(m: String, hs: Seq<ApiEndpoint<C>>, version: Option<&Version>) -> Seq<Pair<C>>
     decreases hs.len()
 {
     if hs.len() == 0 { Seq::empty() }
@@ -18,17 +23,25 @@ pub open spec fn kept<C: ServerContext>(m: String, hs: Seq<ApiEndpoint<C>>, vers
         (match keep_spec(m, hs[0], version) { Some(x) => seq![x], None => Seq::empty() }) + kept(m, hs.skip(1), version)
     }
 }
-pub open spec fn own_from<C: ServerContext>(keys: Seq<String>, n: HttpRouterNode<C>, version: Option<&Version>) -> Seq<(String, ApiEndpoint<C>)>
+pub open spec fn own_from<C: ServerContext>(keys: Seq<String>, n: HttpRouterNode<C>, version: Option<&Version>) -> Seq<Pair<C>>
     decreases keys.len()
 {
     if keys.len() == 0 { Seq::empty() }
     else { kept(keys[0], handlers_for(n, keys[0]), version) + own_from(keys.skip(1), n, version) }
 }
 /// the (method name, endpoint) pairs of ONE node that are served at the version
-pub open spec fn own_items<C: ServerContext>(n: HttpRouterNode<C>, version: Option<&Version>) -> Seq<(String, ApiEndpoint<C>)> {
+pub open spec fn own_pairs<C: ServerContext>(n: HttpRouterNode<C>, version: Option<&Version>) -> Seq<Pair<C>> {
     own_from(key_order(n.methods@), n, version)
 }
-/// the children of a node with the label of the edge that leads to each
+/// the same pairs, each with the route of the node they were found at
+pub open spec fn attach<C: ServerContext>(route: Route, s: Seq<Pair<C>>) -> Seq<Listed<C>> {
+    Seq::new(s.len(), |i: int| (route, s[i].0, s[i].1))
+}
+pub open spec fn own_items<C: ServerContext>(route: Route, n: HttpRouterNode<C>, version: Option<&Version>) -> Seq<Listed<C>> {
+    attach(route, own_pairs(n, version))
+}
+/// the children of a node with the label the listing gives to the edge that leads to each (a wildcard child is
+/// labelled like a single-segment variable: the document has no other way to write it)
 pub open spec fn children<C: ServerContext>(n: HttpRouterNode<C>) -> Seq<(PathSegment, HttpRouterNode<C>)> {
     match n.edges {
         None => Seq::empty(),
@@ -37,49 +50,50 @@ pub open spec fn children<C: ServerContext>(n: HttpRouterNode<C>) -> Seq<(PathSe
         Some(HttpRouterEdges::VariableRest(name, child)) => seq![(PathSegment::VarnameSegment(name), *child)],
     }
 }
-pub type Listed<C> = (String, ApiEndpoint<C>);
-/// the whole listing of the sub-trie under a node, at a version: the node's own pairs, then each child's listing
-pub open spec fn dfs<C: ServerContext>(n: HttpRouterNode<C>, version: Option<&Version>) -> Seq<Listed<C>>
+/// the whole listing of the sub-trie under a node reached by `route`, at a version: the node's own pairs, then each
+/// child's listing under the route extended by that child's edge label
+pub open spec fn dfs<C: ServerContext>(n: HttpRouterNode<C>, route: Route, version: Option<&Version>) -> Seq<Listed<C>>
     decreases n, 0nat
 {
-    own_items(n, version) + (match n.edges {
+    own_items(route, n, version) + (match n.edges {
         None => Seq::empty(),
-        Some(HttpRouterEdges::Literals(m)) => dfs_lit(m, key_order(m@), version),
-        Some(HttpRouterEdges::VariableSingle(_, child)) => dfs(*child, version),
-        Some(HttpRouterEdges::VariableRest(_, child)) => dfs(*child, version),
+        Some(HttpRouterEdges::Literals(m)) => dfs_lit(m, key_order(m@), route, version),
+        Some(HttpRouterEdges::VariableSingle(name, child)) => dfs(*child, route.push(PathSegment::VarnameSegment(name)), version),
+        Some(HttpRouterEdges::VariableRest(name, child)) => dfs(*child, route.push(PathSegment::VarnameSegment(name)), version),
     })
 }
-pub open spec fn dfs_lit<C: ServerContext>(m: BTreeMap<String, Box<HttpRouterNode<C>>>, keys: Seq<String>, version: Option<&Version>) -> Seq<Listed<C>>
+pub open spec fn dfs_lit<C: ServerContext>(m: BTreeMap<String, Box<HttpRouterNode<C>>>, keys: Seq<String>, route: Route, version: Option<&Version>) -> Seq<Listed<C>>
     decreases m, keys.len()
 {
     if keys.len() == 0 { Seq::empty() }
     else {
-        (if m@.contains_key(keys[0]) { dfs(*m@[keys[0]], version) } else { Seq::empty() }) + dfs_lit(m, keys.skip(1), version)
+        (if m@.contains_key(keys[0]) { dfs(*m@[keys[0]], route.push(PathSegment::Literal(keys[0])), version) } else { Seq::empty() })
+            + dfs_lit(m, keys.skip(1), route, version)
     }
 }
-/// the listings of a sequence of sub-tries, one after the other
-pub open spec fn flat<C: ServerContext>(s: Seq<(PathSegment, HttpRouterNode<C>)>, version: Option<&Version>) -> Seq<Listed<C>>
+/// the listings of a sequence of labelled sub-tries, one after the other
+pub open spec fn flat<C: ServerContext>(s: Seq<(PathSegment, HttpRouterNode<C>)>, route: Route, version: Option<&Version>) -> Seq<Listed<C>>
     decreases s.len()
 {
-    if s.len() == 0 { Seq::empty() } else { dfs(s[0].1, version) + flat(s.skip(1), version) }
+    if s.len() == 0 { Seq::empty() } else { dfs(s[0].1, route.push(s[0].0), version) + flat(s.skip(1), route, version) }
 }
 pub open spec fn lit_children<C: ServerContext>(m: BTreeMap<String, Box<HttpRouterNode<C>>>, keys: Seq<String>) -> Seq<(PathSegment, HttpRouterNode<C>)> {
     Seq::new(keys.len(), |i: int| (PathSegment::Literal(keys[i]), *m@[keys[i]]))
 }
-pub proof fn lit_flat<C: ServerContext>(m: BTreeMap<String, Box<HttpRouterNode<C>>>, keys: Seq<String>, version: Option<&Version>)
+pub proof fn lit_flat<C: ServerContext>(m: BTreeMap<String, Box<HttpRouterNode<C>>>, keys: Seq<String>, route: Route, version: Option<&Version>)
     requires forall|i: int| 0 <= i < keys.len() ==> m@.contains_key(#[trigger] keys[i]),
-    ensures dfs_lit(m, keys, version) == flat(lit_children(m, keys), version),
+    ensures dfs_lit(m, keys, route, version) == flat(lit_children(m, keys), route, version),
     decreases keys.len()
 {
     if keys.len() > 0 {
-        lit_flat(m, keys.skip(1), version);
+        lit_flat(m, keys.skip(1), route, version);
         assert(lit_children(m, keys).skip(1) =~= lit_children(m, keys.skip(1)));
-        assert(lit_children(m, keys)[0].1 == *m@[keys[0]]);
+        assert(lit_children(m, keys)[0] == (PathSegment::Literal(keys[0]), *m@[keys[0]]));
     }
 }
 /// dfs, said through `children`: a node's own pairs, then the listings of its children in order
-pub proof fn dfs_unfold<C: ServerContext>(n: HttpRouterNode<C>, version: Option<&Version>)
-    ensures dfs(n, version) == own_items(n, version) + flat(children(n), version)
+pub proof fn dfs_unfold<C: ServerContext>(n: HttpRouterNode<C>, route: Route, version: Option<&Version>)
+    ensures dfs(n, route, version) == own_items(route, n, version) + flat(children(n), route, version)
 {
     broadcast use ax_key_order;
     match n.edges {
@@ -88,71 +102,113 @@ pub proof fn dfs_unfold<C: ServerContext>(n: HttpRouterNode<C>, version: Option<
             assert forall|i: int| 0 <= i < key_order(m@).len() implies m@.contains_key(#[trigger] key_order(m@)[i]) by {
                 assert(key_order(m@).contains(key_order(m@)[i]));
             }
-            lit_flat(m, key_order(m@), version);
+            lit_flat(m, key_order(m@), route, version);
             assert(children(n) =~= lit_children(m, key_order(m@)));
         }
         Some(HttpRouterEdges::VariableSingle(name, child)) => {
             let s = children(n);
-            assert(s.len() == 1 && s[0].1 == *child);
-            assert(s.skip(1).len() == 0);
-            assert(flat(s.skip(1), version) =~= Seq::<Listed<C>>::empty());
-            assert(flat(s, version) == dfs(s[0].1, version) + flat(s.skip(1), version));
-            assert(flat(s, version) =~= dfs(*child, version));
+            assert(s.len() == 1 && s[0] == (PathSegment::VarnameSegment(name), *child));
+            assert(flat(s.skip(1), route, version) =~= Seq::<Listed<C>>::empty());
+            assert(flat(s, route, version) == dfs(s[0].1, route.push(s[0].0), version) + flat(s.skip(1), route, version));
+            assert(flat(s, route, version) =~= dfs(*child, route.push(PathSegment::VarnameSegment(name)), version));
         }
         Some(HttpRouterEdges::VariableRest(name, child)) => {
             let s = children(n);
-            assert(s.len() == 1 && s[0].1 == *child);
-            assert(s.skip(1).len() == 0);
-            assert(flat(s.skip(1), version) =~= Seq::<Listed<C>>::empty());
-            assert(flat(s, version) == dfs(s[0].1, version) + flat(s.skip(1), version));
-            assert(flat(s, version) =~= dfs(*child, version));
+            assert(s.len() == 1 && s[0] == (PathSegment::VarnameSegment(name), *child));
+            assert(flat(s.skip(1), route, version) =~= Seq::<Listed<C>>::empty());
+            assert(flat(s, route, version) == dfs(s[0].1, route.push(s[0].0), version) + flat(s.skip(1), route, version));
+            assert(flat(s, route, version) =~= dfs(*child, route.push(PathSegment::VarnameSegment(name)), version));
         }
     }
 }
 
 // ---- the iterator's abstract state: what it has yet to yield ----
+/// the route of the node on top of the stack: the labels on the stack above the placeholder at the bottom
+pub open spec fn route_of<'a, C: ServerContext>(p: Seq<(PathSegment, Box<PathIter<'a, C>>)>) -> Route {
+    Seq::new(if p.len() > 0 { (p.len() - 1) as nat } else { 0 }, |i: int| p[i + 1].0)
+}
 pub open spec fn stack_rest<'a, C: ServerContext>(p: Seq<(PathSegment, Box<PathIter<'a, C>>)>, version: Option<&Version>) -> Seq<Listed<C>>
     decreases p.len()
 {
-    if p.len() == 0 { Seq::empty() } else { flat(prem(*p.last().1), version) + stack_rest(p.drop_last(), version) }
+    if p.len() == 0 { Seq::empty() } else { flat(prem(*p.last().1), route_of(p), version) + stack_rest(p.drop_last(), version) }
 }
 pub open spec fn rest<'a, C: ServerContext>(it: HttpRouterIter<'a, C>) -> Seq<Listed<C>> {
-    mrem(it.method) + stack_rest(it.path@, it.version)
+    attach(route_of(it.path@), mrem(it.method)) + stack_rest(it.path@, it.version)
 }
 /// with an empty stack the traversal is over: nothing may be pending in the method iterator
 pub open spec fn iter_wf<'a, C: ServerContext>(it: HttpRouterIter<'a, C>) -> bool {
     it.path@.len() == 0 ==> mrem(it.method).len() == 0
 }
+/// taking the head of the method iterator takes the head of what is ahead
+pub proof fn attach_step<C: ServerContext>(route: Route, s: Seq<Pair<C>>)
+    requires s.len() > 0,
+    ensures attach(route, s) == seq![(route, s[0].0, s[0].1)] + attach(route, s.skip(1)),
+{
+    assert(attach(route, s) =~= seq![(route, s[0].0, s[0].1)] + attach(route, s.skip(1)));
+}
+pub broadcast proof fn route_of_single<'a, C: ServerContext>(p: Seq<(PathSegment, Box<PathIter<'a, C>>)>)
+    requires p.len() == 1,
+    ensures #[trigger] route_of(p) == Seq::<PathSegment>::empty(),
+{
+    assert(route_of(p) =~= Seq::<PathSegment>::empty());
+}
 pub broadcast proof fn lemma_single_stack<'a, C: ServerContext>(p: Seq<(PathSegment, Box<PathIter<'a, C>>)>, version: Option<&Version>)
     requires p.len() == 1,
-    ensures #[trigger] stack_rest(p, version) == flat(prem(*p[0].1), version),
+    ensures #[trigger] stack_rest(p, version) == flat(prem(*p[0].1), Seq::<PathSegment>::empty(), version),
 {
+    assert(route_of(p) =~= Seq::<PathSegment>::empty());
     assert(stack_rest(p.drop_last(), version) =~= Seq::<Listed<C>>::empty());
-    assert(stack_rest(p, version) =~= flat(prem(*p.last().1), version));
+    assert(stack_rest(p, version) =~= flat(prem(*p.last().1), route_of(p), version));
 }
 pub proof fn lemma_ascend<'a, C: ServerContext>(q: Seq<(PathSegment, Box<PathIter<'a, C>>)>, version: Option<&Version>)
     requires q.len() > 0, prem(*q.last().1).len() == 0,
     ensures stack_rest(q, version) == stack_rest(q.drop_last(), version),
 {
-    assert(flat(prem(*q.last().1), version) =~= Seq::<Listed<C>>::empty());
+    assert(flat(prem(*q.last().1), route_of(q), version) =~= Seq::<Listed<C>>::empty());
     assert(stack_rest(q, version) =~= stack_rest(q.drop_last(), version));
 }
 pub proof fn lemma_descend<'a, C: ServerContext>(q: Seq<(PathSegment, Box<PathIter<'a, C>>)>, p: Seq<(PathSegment, Box<PathIter<'a, C>>)>,
-    node: HttpRouterNode<C>, version: Option<&Version>)
-    requires q.len() > 0, prem(*q.last().1).len() > 0, prem(*q.last().1)[0].1 == node,
+    version: Option<&Version>)
+    requires q.len() > 0, prem(*q.last().1).len() > 0,
         p.len() == q.len() + 1, p.drop_last().drop_last() == q.drop_last(),
+        p.drop_last().last().0 == q.last().0,
         prem(*p.drop_last().last().1) == prem(*q.last().1).skip(1),
-        prem(*p.last().1) == children(node),
-    ensures stack_rest(q, version) == own_items(node, version) + stack_rest(p, version),
+        p.last().0 == prem(*q.last().1)[0].0,
+        prem(*p.last().1) == children(prem(*q.last().1)[0].1),
+    ensures stack_rest(q, version) == own_items(route_of(p), prem(*q.last().1)[0].1, version) + stack_rest(p, version),
 {
-    dfs_unfold(node, version);
     let r0 = prem(*q.last().1);
+    let node = r0[0].1;
+    let seg = r0[0].0;
+    assert(route_of(p) =~= route_of(q).push(seg)) by {
+        assert forall|i: int| 0 <= i < route_of(p).len() implies route_of(p)[i] == route_of(q).push(seg)[i] by {
+            if i + 1 < q.len() - 1 {
+                assert(p[i + 1] == p.drop_last().drop_last()[i + 1]);
+                assert(q[i + 1] == q.drop_last()[i + 1]);
+            } else if i + 1 == q.len() - 1 {
+                assert(p[i + 1] == p.drop_last().last());
+            } else {
+                assert(p[i + 1] == p.last());
+            }
+        }
+    }
+    assert(route_of(p.drop_last()) =~= route_of(q)) by {
+        assert forall|i: int| 0 <= i < route_of(q).len() implies route_of(p.drop_last())[i] == route_of(q)[i] by {
+            if i + 1 < q.len() - 1 {
+                assert(p.drop_last()[i + 1] == p.drop_last().drop_last()[i + 1]);
+                assert(q[i + 1] == q.drop_last()[i + 1]);
+            } else {
+                assert(p.drop_last()[i + 1] == p.drop_last().last());
+            }
+        }
+    }
+    dfs_unfold(node, route_of(p), version);
     let s = stack_rest(q.drop_last(), version);
-    assert(flat(r0, version) == dfs(node, version) + flat(r0.skip(1), version));
-    assert(stack_rest(p.drop_last(), version) == flat(r0.skip(1), version) + s);
-    assert(stack_rest(p, version) == flat(children(node), version) + stack_rest(p.drop_last(), version));
-    assert(stack_rest(q, version) == flat(r0, version) + s);
-    assert(stack_rest(q, version) =~= own_items(node, version) + stack_rest(p, version));
+    assert(flat(r0, route_of(q), version) == dfs(node, route_of(q).push(seg), version) + flat(r0.skip(1), route_of(q), version));
+    assert(stack_rest(p.drop_last(), version) == flat(r0.skip(1), route_of(q), version) + s);
+    assert(stack_rest(p, version) == flat(children(node), route_of(p), version) + stack_rest(p.drop_last(), version));
+    assert(stack_rest(q, version) == flat(r0, route_of(q), version) + s);
+    assert(stack_rest(q, version) =~= own_items(route_of(p), node, version) + stack_rest(p, version));
 }
 
 // ---- what the listing contains: exactly the endpoints stored in the trie whose range contains the version ----
@@ -166,16 +222,29 @@ pub proof fn concat_contains<T>(a: Seq<T>, b: Seq<T>, x: T)
         if i < a.len() { assert(a[i] == x); } else { assert(b[i - a.len()] == x); }
     }
 }
-/// an endpoint is stored somewhere in the sub-trie under `n`, under method name `m`
-pub open spec fn holds<C: ServerContext>(n: HttpRouterNode<C>, m: String, e: ApiEndpoint<C>) -> bool
+/// an endpoint is stored under method name `m` at the node of the sub-trie under `n` (itself reached by `route`)
+/// whose route from the root is `at`
+pub open spec fn holds<C: ServerContext>(n: HttpRouterNode<C>, route: Route, at: Route, m: String, e: ApiEndpoint<C>) -> bool
     decreases n
 {
-    handlers_for(n, m).contains(e) || (match n.edges {
+    (route == at && handlers_for(n, m).contains(e)) || (match n.edges {
         None => false,
-        Some(HttpRouterEdges::Literals(mp)) => exists|k: String| #[trigger] mp@.contains_key(k) && holds(*mp@[k], m, e),
-        Some(HttpRouterEdges::VariableSingle(_, child)) => holds(*child, m, e),
-        Some(HttpRouterEdges::VariableRest(_, child)) => holds(*child, m, e),
+        Some(HttpRouterEdges::Literals(mp)) => exists|k: String| #[trigger] mp@.contains_key(k) && holds(*mp@[k], route.push(PathSegment::Literal(k)), at, m, e),
+        Some(HttpRouterEdges::VariableSingle(name, child)) => holds(*child, route.push(PathSegment::VarnameSegment(name)), at, m, e),
+        Some(HttpRouterEdges::VariableRest(name, child)) => holds(*child, route.push(PathSegment::VarnameSegment(name)), at, m, e),
     })
+}
+pub proof fn attach_contains<C: ServerContext>(route: Route, s: Seq<Pair<C>>, at: Route, m: String, e: ApiEndpoint<C>)
+    ensures attach(route, s).contains((at, m, e)) <==> (at == route && s.contains((m, e)))
+{
+    if attach(route, s).contains((at, m, e)) {
+        let i = choose|i: int| 0 <= i < attach(route, s).len() && attach(route, s)[i] == (at, m, e);
+        assert(s[i] == (m, e));
+    }
+    if at == route && s.contains((m, e)) {
+        let i = choose|i: int| 0 <= i < s.len() && s[i] == (m, e);
+        assert(attach(route, s)[i] == (at, m, e));
+    }
 }
 pub proof fn kept_contains<C: ServerContext>(m0: String, hs: Seq<ApiEndpoint<C>>, version: Option<&Version>, m: String, e: ApiEndpoint<C>)
     ensures kept(m0, hs, version).contains((m, e)) <==> (m == m0 && hs.contains(e) && matches_v(e.versions, version))
@@ -183,7 +252,7 @@ pub proof fn kept_contains<C: ServerContext>(m0: String, hs: Seq<ApiEndpoint<C>>
 {
     if hs.len() > 0 {
         kept_contains(m0, hs.skip(1), version, m, e);
-        let head: Seq<Listed<C>> = match keep_spec(m0, hs[0], version) { Some(x) => seq![x], None => Seq::empty() };
+        let head: Seq<Pair<C>> = match keep_spec(m0, hs[0], version) { Some(x) => seq![x], None => Seq::empty() };
         concat_contains(head, kept(m0, hs.skip(1), version), (m, e));
         if head.contains((m, e)) { assert(head[0] == (m, e)); assert(hs[0] == e); }
         if hs.contains(e) {
@@ -215,57 +284,60 @@ pub proof fn own_from_contains<C: ServerContext>(keys: Seq<String>, n: HttpRoute
         }
     }
 }
-/// C06: "one operation for each endpoint whose version range contains v, and nothing else" -- on the listing the
-/// document is assembled from: a pair is listed iff the endpoint is stored in the trie under that method name and its
-/// range contains the version
-pub proof fn listing_is_exact<C: ServerContext>(n: HttpRouterNode<C>, version: Option<&Version>, m: String, e: ApiEndpoint<C>)
-    ensures dfs(n, version).contains((m, e)) <==> (holds(n, m, e) && matches_v(e.versions, version))
+/// C06: "one operation - under its method, path template ... - for each endpoint whose version range contains v,
+/// and nothing else" -- on the listing the document is assembled from: (route, method, endpoint) is listed iff the
+/// endpoint is stored under that method name at the node with that route and its range contains the version
+pub proof fn listing_is_exact<C: ServerContext>(n: HttpRouterNode<C>, route: Route, version: Option<&Version>, at: Route, m: String, e: ApiEndpoint<C>)
+    ensures dfs(n, route, version).contains((at, m, e)) <==> (holds(n, route, at, m, e) && matches_v(e.versions, version))
     decreases n, 0nat
 {
     broadcast use ax_key_order;
     own_from_contains(key_order(n.methods@), n, version, m, e);
+    attach_contains(route, own_pairs(n, version), at, m, e);
     let below: Seq<Listed<C>> = match n.edges {
         None => Seq::empty(),
-        Some(HttpRouterEdges::Literals(mp)) => dfs_lit(mp, key_order(mp@), version),
-        Some(HttpRouterEdges::VariableSingle(_, child)) => dfs(*child, version),
-        Some(HttpRouterEdges::VariableRest(_, child)) => dfs(*child, version),
+        Some(HttpRouterEdges::Literals(mp)) => dfs_lit(mp, key_order(mp@), route, version),
+        Some(HttpRouterEdges::VariableSingle(name, child)) => dfs(*child, route.push(PathSegment::VarnameSegment(name)), version),
+        Some(HttpRouterEdges::VariableRest(name, child)) => dfs(*child, route.push(PathSegment::VarnameSegment(name)), version),
     };
-    concat_contains(own_items(n, version), below, (m, e));
+    concat_contains(own_items(route, n, version), below, (at, m, e));
     assert(handlers_for(n, m).contains(e) ==> n.methods@.contains_key(m)) by {
         if !n.methods@.contains_key(m) { assert(handlers_for(n, m) =~= Seq::<ApiEndpoint<C>>::empty()); }
     }
     match n.edges {
         None => {}
         Some(HttpRouterEdges::Literals(mp)) => {
-            lit_listing_is_exact(mp, key_order(mp@), version, m, e);
-            if exists|k: String| #[trigger] mp@.contains_key(k) && holds(*mp@[k], m, e) {
-                let k = choose|k: String| #[trigger] mp@.contains_key(k) && holds(*mp@[k], m, e);
+            lit_listing_is_exact(mp, key_order(mp@), route, version, at, m, e);
+            if exists|k: String| #[trigger] mp@.contains_key(k) && holds(*mp@[k], route.push(PathSegment::Literal(k)), at, m, e) {
+                let k = choose|k: String| #[trigger] mp@.contains_key(k) && holds(*mp@[k], route.push(PathSegment::Literal(k)), at, m, e);
                 assert(key_order(mp@).contains(k));
             }
         }
-        Some(HttpRouterEdges::VariableSingle(_, child)) => { listing_is_exact(*child, version, m, e); }
-        Some(HttpRouterEdges::VariableRest(_, child)) => { listing_is_exact(*child, version, m, e); }
+        Some(HttpRouterEdges::VariableSingle(name, child)) => { listing_is_exact(*child, route.push(PathSegment::VarnameSegment(name)), version, at, m, e); }
+        Some(HttpRouterEdges::VariableRest(name, child)) => { listing_is_exact(*child, route.push(PathSegment::VarnameSegment(name)), version, at, m, e); }
     }
 }
-pub proof fn lit_listing_is_exact<C: ServerContext>(mp: BTreeMap<String, Box<HttpRouterNode<C>>>, keys: Seq<String>, version: Option<&Version>, m: String, e: ApiEndpoint<C>)
-    ensures dfs_lit(mp, keys, version).contains((m, e))
-        <==> (matches_v(e.versions, version) && exists|k: String| #![trigger mp@.contains_key(k)] keys.contains(k) && mp@.contains_key(k) && holds(*mp@[k], m, e))
+pub proof fn lit_listing_is_exact<C: ServerContext>(mp: BTreeMap<String, Box<HttpRouterNode<C>>>, keys: Seq<String>, route: Route, version: Option<&Version>,
+    at: Route, m: String, e: ApiEndpoint<C>)
+    ensures dfs_lit(mp, keys, route, version).contains((at, m, e))
+        <==> (matches_v(e.versions, version) && exists|k: String| #![trigger mp@.contains_key(k)] keys.contains(k) && mp@.contains_key(k)
+                && holds(*mp@[k], route.push(PathSegment::Literal(k)), at, m, e))
     decreases mp, keys.len()
 {
     if keys.len() > 0 {
-        lit_listing_is_exact(mp, keys.skip(1), version, m, e);
-        let head: Seq<Listed<C>> = if mp@.contains_key(keys[0]) { dfs(*mp@[keys[0]], version) } else { Seq::empty() };
-        concat_contains(head, dfs_lit(mp, keys.skip(1), version), (m, e));
-        if mp@.contains_key(keys[0]) { listing_is_exact(*mp@[keys[0]], version, m, e); }
-        let p = |k: String| keys.contains(k) && mp@.contains_key(k) && holds(*mp@[k], m, e);
-        let q = |k: String| keys.skip(1).contains(k) && mp@.contains_key(k) && holds(*mp@[k], m, e);
+        lit_listing_is_exact(mp, keys.skip(1), route, version, at, m, e);
+        let head: Seq<Listed<C>> = if mp@.contains_key(keys[0]) { dfs(*mp@[keys[0]], route.push(PathSegment::Literal(keys[0])), version) } else { Seq::empty() };
+        concat_contains(head, dfs_lit(mp, keys.skip(1), route, version), (at, m, e));
+        if mp@.contains_key(keys[0]) { listing_is_exact(*mp@[keys[0]], route.push(PathSegment::Literal(keys[0])), version, at, m, e); }
+        let p = |k: String| keys.contains(k) && mp@.contains_key(k) && holds(*mp@[k], route.push(PathSegment::Literal(k)), at, m, e);
+        let q = |k: String| keys.skip(1).contains(k) && mp@.contains_key(k) && holds(*mp@[k], route.push(PathSegment::Literal(k)), at, m, e);
         if exists|k: String| #![trigger mp@.contains_key(k)] q(k) {
             let k = choose|k: String| #![trigger mp@.contains_key(k)] q(k);
             let i = choose|i: int| 0 <= i < keys.skip(1).len() && keys.skip(1)[i] == k;
             assert(keys[i + 1] == k);
             assert(p(k));
         }
-        if head.contains((m, e)) { assert(keys[0] == keys[0] && keys.contains(keys[0])); assert(p(keys[0])); }
+        if head.contains((at, m, e)) { assert(keys.contains(keys[0])); assert(p(keys[0])); }
         if exists|k: String| #![trigger mp@.contains_key(k)] p(k) {
             let k = choose|k: String| #![trigger mp@.contains_key(k)] p(k);
             let i = choose|i: int| 0 <= i < keys.len() && keys[i] == k;
@@ -348,14 +420,14 @@ pub proof fn own_from_no_duplicates<C: ServerContext>(keys: Seq<String>, n: Http
 /// a node lists no (method name, endpoint) pair twice, and never two endpoints under one method name
 pub proof fn one_operation_per_method<C: ServerContext>(n: HttpRouterNode<C>, v: &Version)
     requires wf_node(n),
-    ensures own_items(n, Some(v)).no_duplicates(),
-        forall|m: String, e1: ApiEndpoint<C>, e2: ApiEndpoint<C>| own_items(n, Some(v)).contains((m, e1)) && own_items(n, Some(v)).contains((m, e2)) ==> e1 == e2,
+    ensures own_pairs(n, Some(v)).no_duplicates(),
+        forall|m: String, e1: ApiEndpoint<C>, e2: ApiEndpoint<C>| own_pairs(n, Some(v)).contains((m, e1)) && own_pairs(n, Some(v)).contains((m, e2)) ==> e1 == e2,
 {
     broadcast use ax_key_order;
     let keys = key_order(n.methods@);
     assert forall|i: int| 0 <= i < keys.len() implies n.methods@.contains_key(#[trigger] keys[i]) by { assert(keys.contains(keys[i])); }
     own_from_no_duplicates(keys, n, v);
-    assert forall|m: String, e1: ApiEndpoint<C>, e2: ApiEndpoint<C>| own_items(n, Some(v)).contains((m, e1)) && own_items(n, Some(v)).contains((m, e2)) implies e1 == e2 by {
+    assert forall|m: String, e1: ApiEndpoint<C>, e2: ApiEndpoint<C>| own_pairs(n, Some(v)).contains((m, e1)) && own_pairs(n, Some(v)).contains((m, e2)) implies e1 == e2 by {
         own_from_contains(keys, n, Some(v), m, e1);
         own_from_contains(keys, n, Some(v), m, e2);
         let hs = handlers_for(n, m);
@@ -370,20 +442,23 @@ pub proof fn one_operation_per_method<C: ServerContext>(n: HttpRouterNode<C>, v:
     }
 }
 
+/// the text HttpRouterIter::path renders a route as ("/" + labels joined by "/"): format!/join, not verified
+pub uninterp spec fn render(route: Route) -> Seq<char>;
+
 /// what a `for` loop over the iterator sees: calling next() until it says None yields exactly what was ahead, in
 /// order (a consumer written only to show that next's contract is strong enough to conclude this; gen_openapi's
-/// own loop is not verified)
-pub fn drain<'a, C: ServerContext>(it0: HttpRouterIter<'a, C>) -> (out: Vec<(String, &'a ApiEndpoint<C>)>)
+/// own loop is verified below)
+pub fn drain<'a, C: ServerContext>(it0: HttpRouterIter<'a, C>) -> (out: Vec<(String, String, &'a ApiEndpoint<C>)>)
     requires iter_wf(it0),
     ensures out@.len() == rest(it0).len(),
-        forall|i: int| 0 <= i < out@.len() ==> (#[trigger] out@[i]).0 == rest(it0)[i].0 && *out@[i].1 == rest(it0)[i].1,
+        forall|i: int| 0 <= i < out@.len() ==> (#[trigger] out@[i]).0@ == render(rest(it0)[i].0) && out@[i].1 == rest(it0)[i].1 && *out@[i].2 == rest(it0)[i].2,
 {
     let mut it = it0;
     let ghost all = rest(it);
-    let mut out: Vec<(String, &'a ApiEndpoint<C>)> = Vec::new();
+    let mut out: Vec<(String, String, &'a ApiEndpoint<C>)> = Vec::new();
     loop
         invariant all == rest(it0), iter_wf(it), out@.len() + rest(it).len() == all.len(),
-            forall|i: int| 0 <= i < out@.len() ==> (#[trigger] out@[i]).0 == all[i].0 && *out@[i].1 == all[i].1,
+            forall|i: int| 0 <= i < out@.len() ==> (#[trigger] out@[i]).0@ == render(all[i].0) && out@[i].1 == all[i].1 && *out@[i].2 == all[i].2,
             forall|i: int| 0 <= i < rest(it).len() ==> rest(it)[i] == all[out@.len() + i],
         decreases rest(it).len(),
     {
@@ -392,27 +467,26 @@ pub fn drain<'a, C: ServerContext>(it0: HttpRouterIter<'a, C>) -> (out: Vec<(Str
             None => { return out; }
             Some(x) => {
                 proof {
-                    assert(before[0] == (x.1, *x.2));
+                    assert(before[0].1 == x.1 && before[0].2 == *x.2 && x.0@ == render(before[0].0));
                     assert forall|i: int| 0 <= i < rest(it).len() implies rest(it)[i] == all[out@.len() + 1 + i] by {
                         assert(rest(it)[i] == before[i + 1]);
                     }
                 }
-                out.push((x.1, x.2));
+                out.push(x);
             }
         }
     }
 }
 
-// ---- the document's operations: the visible part of the listing ----
-pub open spec fn visible_only<C: ServerContext>(s: Seq<Listed<C>>) -> Seq<Listed<C>>
+// ---- the document's operations: the visible part of the listing, each under the text of its route ----
+pub type Op<C> = (Seq<char>, String, ApiEndpoint<C>);
+pub open spec fn doc_of<C: ServerContext>(s: Seq<Listed<C>>) -> Seq<Op<C>>
     decreases s.len()
 {
     if s.len() == 0 { Seq::empty() }
-    else { (if s[0].1.visible { seq![s[0]] } else { Seq::empty() }) + visible_only(s.skip(1)) }
+    else { (if s[0].2.visible { seq![(render(s[0].0), s[0].1, s[0].2)] } else { Seq::empty() }) + doc_of(s.skip(1)) }
 }
-pub proof fn visible_only_step<C: ServerContext>(x: Listed<C>, t: Seq<Listed<C>>)
-    ensures visible_only(seq![x] + t) == (if x.1.visible { seq![x] } else { Seq::empty() }) + visible_only(t)
-{
-    assert((seq![x] + t).skip(1) =~= t);
-    assert((seq![x] + t)[0] == x);
-}
+pub proof fn doc_of_step<C: ServerContext>(s: Seq<Listed<C>>, t: Seq<Listed<C>>)
+    requires s.len() > 0, t == s.skip(1),
+    ensures doc_of(s) == (if s[0].2.visible { seq![(render(s[0].0), s[0].1, s[0].2)] } else { Seq::empty() }) + doc_of(t)
+{}
